@@ -22,12 +22,18 @@ pub enum Px {
     Explicit(Vec<[f32; 3]>),
 }
 
-/// strata over [-0.5,2]^3: 0 uniform; 1 unit cube; 2 single axis; 3 greys; 4 lattice {-0.5,0,1,2}; 5 white and near-white
+/// strata over [-0.5,2]^3: 0 uniform; 1 unit cube; 2 single axis; 3 greys; 4 lattice {-0.5,0,1,2}; 5 white and near-white;
+/// 6 near-neutral (grey + per-component perturbations of one scale, log-uniform 1e-7..1e-2)
 pub fn expand(stratum: u8, seed: u64, n: usize) -> Vec<[f32; 3]> {
     let mut e = Expand(seed);
     let mut out = Vec::with_capacity(n);
     for _ in 0..n {
-        let p: [f64; 3] = match stratum % 6 {
+        let p: [f64; 3] = match stratum % 7 {
+            6 => {
+                let g = e.range_f64(-0.4, 1.9);
+                let sc = 10f64.powf(e.range_f64(-7.0, -2.0));
+                [g + sc * (2.0 * e.unit() - 1.0), g + sc * (2.0 * e.unit() - 1.0), g + sc * (2.0 * e.unit() - 1.0)]
+            }
             0 => [e.range_f64(-0.5, 2.0), e.range_f64(-0.5, 2.0), e.range_f64(-0.5, 2.0)],
             1 => [e.unit(), e.unit(), e.unit()],
             2 => {
@@ -78,7 +84,7 @@ impl Case {
 }
 
 pub fn strategy() -> BoxedStrategy<Case> {
-    (sup_primaries(), any::<bool>(), 0u8..6, any::<u64>(), 1usize..=32, 1usize..=8)
+    (sup_primaries(), any::<bool>(), 0u8..7, any::<u64>(), 1usize..=32, 1usize..=8)
         .prop_map(|(p, to_709, stratum, seed, w, h)| Case { p, to_709, w, h, px: Px::Seeded { stratum, seed } })
         .boxed()
 }
@@ -225,4 +231,4 @@ pub fn replay(v: &Value) -> Result<(), String> {
     check(&case, &mut Stats::new()).map_err(|v| v.message)
 }
 
-pub const RULE: &str = "cases = (primaries in 11 supported, direction to/from BT.709, w x h image of linear pixels of [-0.5,2]^3 from 6 strata: uniform, unit cube, single axis, greys, lattice, white/near-white) generated by proptest, plus an enumerated lattice per primaries and direction; oracle = M_out^-1 * Bradford * M_in built in f64 from the H.273 chromaticities (tol 1e-5*max(1,|v|)), white -> white within 1e-5, there-and-back within 1e-5, BT.709<->BT.709 bitwise; non-trivial = non-BT.709 primaries and an image containing a non-grey pixel; distinct = by hash of (primaries, direction, pixel bits)";
+pub const RULE: &str = "cases = (primaries in 11 supported, direction to/from BT.709, w x h image of linear pixels of [-0.5,2]^3 from 7 strata: uniform, unit cube, single axis, greys, near-neutral, lattice, white/near-white; a third of the images with related neighbours incl. fed-back pixels and slow ramps) generated by proptest, plus an enumerated lattice per primaries and direction; oracle = M_out^-1 * Bradford * M_in built in f64 from the H.273 chromaticities (tol 1e-5*max(1,|v|)), white -> white within 1e-5, there-and-back within 1e-5, BT.709<->BT.709 bitwise; non-trivial = non-BT.709 primaries and an image containing a non-grey pixel; distinct = by hash of (primaries, direction, pixel bits)";
